@@ -45,7 +45,7 @@ def _split_and_strip(text):
     if "\n" in text:
         rows = textwrap.dedent(text).strip().split("\n")
     else:
-        rows = [text]
+        rows = [text.strip()]
     return rows
 
 
